@@ -84,8 +84,12 @@ func addrPool(r *kit.Rng, n int) []string {
 		}
 	}
 	style := r.Pick(40, 25, 15, 20)
-	for len(pool) < n {
+	for tries := 0; len(pool) < n; tries++ {
 		k := r.Intn(40)
+		if tries > 4*n { // the style's name space is exhausted
+			add(fmt.Sprintf("http://x%d:8081", tries))
+			continue
+		}
 		switch style {
 		case 0: // realistic host names; 9 < 10 numerically but "10" < "9" as strings
 			add(fmt.Sprintf("http://refinery-%d:8081", k))
@@ -274,6 +278,7 @@ type node struct {
 	self     string
 	mock     *peer.MockPeers
 	src      []string
+	started  bool
 	sh       *sharder.DeterministicSharder
 	coll     *collect.MockCollector
 	up, ptx  *transmit.MockTransmission
@@ -344,12 +349,12 @@ func (r *runner) ext(b string, seed uint64) uint64 {
 	return v
 }
 
-// extLoad emits the graph of the hash function at every point a load of list l can evaluate:
-// the seed chain and, for every address, its hash under each seed (an upper bound of
-// partitionCount+1 partitions per peer).
+// extLoad emits the graph of the hash function at the points a load of list l evaluates: the seed
+// chain and, for every address, its hash under each seed, for partitionCount/len+2 seeds (one more
+// than the code uses; a point the model needs and does not find is reported as `missing-ext`).
 func (r *runner) extLoad(l []string) {
 	seed := sharder.VerifPeerSeed()
-	for k := 0; k <= r.pc; k++ {
+	for k := 0; k < r.pc/len(l)+2; k++ {
 		for _, a := range l {
 			r.ext(a, seed)
 		}
@@ -449,7 +454,7 @@ func (r *runner) Do(op []string) (string, bool) {
 		}
 		l := decList(op[2])
 		n.src = l
-		if len(l) > 0 {
+		if len(l) > 0 && n.started {
 			r.extLoad(l)
 		}
 		n.mock.UpdatePeers(l)
@@ -466,6 +471,7 @@ func (r *runner) Do(op []string) (string, bool) {
 		if len(n.src) > 0 {
 			r.extLoad(n.src)
 		}
+		n.started = true
 		res := "ok"
 		if err := n.sh.Start(); err != nil {
 			res = "err"
